@@ -290,6 +290,27 @@ func runC06(c *Ctx) {
 			a := call.Common().Args[0]
 			p := flow.PathOf(a)
 			okp := imgField(a) && len(p.Fields) == 1
+			// in a helper of the region that is handed the image: every call site passes the field itself
+			if prm, isP := a.(*ssa.Parameter); isP && !okp && rf != gm {
+				idx := -1
+				for i, q := range rf.Params {
+					if q == prm {
+						idx = i
+					}
+				}
+				all, n := idx >= 0, 0
+				for _, cf := range gmRegion {
+					for _, site := range callsIn(cf, func(c2 ssa.CallInstruction) bool { return c2.Common().StaticCallee() == rf }) {
+						n++
+						arg := site.Common().Args[idx]
+						if !(imgField(arg) && len(flow.PathOf(arg).Fields) == 1) {
+							all = false
+						}
+						p = flow.PathOf(arg)
+					}
+				}
+				okp = all && n > 0
+			}
 			c.S.Check(okp, "R3", "endorse.GoldenMeasurement→"+callName(call)+":image", c.pos(call.Pos()), "operand is Context.Image", "operand is not the Context.Image field itself: "+flow.Describe(a))
 			imgPaths = append(imgPaths, liftPaths(a, gm, gmRegion, 0)...)
 		}
